@@ -55,6 +55,21 @@ OPAQUE_OK = {
 }
 
 
+# lengths each length-sensitive decoder must accept (what its encoder can produce; protocol: request = no data or one id byte)
+ACCEPTED_LENGTHS = {
+    "at4.comms.x1FFF10_err_info.AcErrorInformationDecoder": lambda ml: ml >= 1,
+    "at5.comms.x1FFF10_err_info.AcErrorInformationDecoder": lambda ml: ml >= 1,
+    "at4.comms.x1FFF12_group_names.GroupNamesDecoder": lambda ml: ml in (0, 1) or ml % 9 == 0,
+    "at5.comms.x1FFF11_ac_ability.AcAbilityDecoder": lambda ml: ml in (0, 1) or ml % 26 == 0,
+    "at5.comms.x1FFF13_zone_names.ZoneNamesDecoder": lambda ml: ml in (0, 1) or ml >= 2,
+    "at4.comms.x1FFF30_console_ver.ConsoleVersionDecoder": lambda ml: ml == 0 or ml >= 2,
+    "at5.comms.x1FFF30_console_ver.ConsoleVersionDecoder": lambda ml: ml == 0 or ml >= 2,
+    "at4.comms.x2B_group_status.GroupStatusDecoder": lambda ml: ml % 6 == 0,
+    "at4.comms.x2D_ac_status.AcStatusDecoder": lambda ml: ml % 8 == 0,
+    "at4.comms.x37_ac_timer_status.AcTimerStatusDecoder": lambda ml: ml % 8 == 0,
+}
+
+
 def r15(ctx, R="C03.R15"):
     """Lengths agree on the receive side too: a decoder hands back exactly the bytes beyond the announced message length.  Decided
     in the buffer-offset domain (sa/offsets.py) for every sub-decoder it can follow: on each returning path whose conditions
@@ -101,6 +116,7 @@ def r15(ctx, R="C03.R15"):
         return None
 
     decided = fixed = 0
+    accepted = {}
     for name, mm in sorted(ctx.repo.modules.items()):
         if ".comms." not in name:
             continue
@@ -116,6 +132,11 @@ def r15(ctx, R="C03.R15"):
             except AnalysisError:
                 continue  # outside the offset domain (decided, or reported as such, by C05)
             lab = f"{name.split('pyairtouch.')[-1]}.{cn}"
+            # which announced lengths the decoder accepts at all (some returning path admits them): the lengths its own encoder
+            # produces - requests of 0 or 1 byte, whole records - must stay accepted
+            if any("ML" in OF.cfmt(c) for ex in exits for c in ex.conds):
+                acc = sorted(ml for ml in range(0, 61) if any(ex.kind == "return" and not any(ev_c(c, ml) is False for c in ex.conds) for ex in exits))
+                accepted[lab] = acc
             for ex in exits:
                 v = ex.value
                 rem = v.fields.get("remaining") if ex.kind == "return" and isinstance(v, OF.Obj) else None
@@ -137,6 +158,13 @@ def r15(ctx, R="C03.R15"):
                         bad = f"with message_length == {ml} the path returns remaining = buffer[{OF.lfmt(rem.lo)}:] (announced bytes are handed back as if they belonged to the next message)"
                         break
                 ctx.check(bad is None, R, f"{lab}:consumes-the-announced-length[{'; '.join(OF.cfmt(c) for c in constrained)[:60]}]", mm, fn, "remaining starts at header.message_length for every length the path admits", bad or "")
+    for lab, want in ACCEPTED_LENGTHS.items():
+        got = accepted.get(lab)
+        if got is None:
+            continue  # outside the offset domain on this tree (reported by C05)
+        exp = [ml for ml in range(0, 61) if want(ml)]
+        miss = [ml for ml in exp if ml not in got]
+        ctx.check(not miss, R, f"{lab}:accepts-every-length-its-encoder-produces", None, None, "requests (0 or 1 byte) and whole-record messages are decoded, not refused", f"message_length {miss[:4]} is refused on every path" if miss else "")
     ctx.holds(R, "decoders:census", None, None, f"{decided} returning paths decided, {fixed} fixed-size paths (no condition on the length) counted")
     ctx.require(decided >= 12, f"only {decided} decoder paths could be followed in the offset domain (20 on the reference tree)")
 
@@ -256,6 +284,17 @@ def r1(ctx):
                 enc = [(c, l, v) for c, l, v in _paths(ctx, m, ci, "encode", union) if _self_consistent(c)]
                 if any(l is None for _, l, _ in enc):
                     bad = next(v for _, l, v in enc if l is None)
+                    # a byte-stuffing / escaping step: bytes.replace(a, b) with len(a) != len(b) makes the length depend on the
+                    # data, so no size() computed from the message's structure can announce it - decided, not "unknown"
+                    stuff = None
+                    for x in ast.walk(ci.methods["encode"]):
+                        if isinstance(x, ast.Call) and isinstance(x.func, ast.Attribute) and x.func.attr == "replace" and len(x.args) >= 2:
+                            a_, b_ = ctx.repo.try_fold(m, x.args[0]), ctx.repo.try_fold(m, x.args[1])
+                            if isinstance(a_, (bytes, str)) and isinstance(b_, (bytes, str)) and len(a_) != len(b_):
+                                stuff = x
+                    if stuff is not None:
+                        ctx.violation(R, f"{lab}:size==len(encode)[data-dependent]", m, stuff, "the encoded length is the one size() announces, for every message", f"`{norm_text(stuff)[:70]}` changes the length whenever the data contain the pattern: the header announces fewer bytes than are written")
+                        continue
                     raise AnalysisError(f"{m.relpath}: {cname}.encode returns a value of unknown length ({getattr(bad, 'text', bad)})")
                 if "size" in ci.methods:
                     ctx.analysed["functions"].add(f"{name}.{cname}.size")
